@@ -10,6 +10,7 @@
 #include <functional>
 #include <map>
 #include <mutex>
+#include <set>
 #include <sstream>
 #include <string>
 #include <thread>
@@ -56,6 +57,36 @@ struct Sched {
   static constexpr int STALL_MS = 4000;
   static constexpr int FREE_MS = 8000;
   std::vector<std::string> decisions;  // "idx:runnable ids:chosen"
+
+  // --- lock-granularity scheduling points (schedules written with a capital letter: "S:", "R:").
+  // The driver interposes pthread_mutex_lock/unlock; for every mutex that is not one of the
+  // harness' own, an actor yields before it acquires and is BLOCKED (visibly to the scheduler) while
+  // another actor holds it.  This reaches check-then-act splits between two critical sections that
+  // have no log / post / wait between them.
+  bool lock_points = false;
+  std::set<const void*> ignored;
+  std::map<const void*, int> held;
+  void ignore_mutex(const void* mtx) { ignored.insert(mtx); }  // set-up phase only (single thread)
+  bool wants(const void* mtx) {
+    return lock_points && !free_run && mtx != (const void*)m.native_handle() && !ignored.count(mtx);
+  }
+  void before_lock(int me, const void* mtx) {
+    yield(me);
+    for (;;) {
+      {
+        std::unique_lock<std::mutex> l(m);
+        if (free_run || !held.count(mtx)) {
+          if (!free_run) held[mtx] = me;
+          return;
+        }
+      }
+      block(me, [this, mtx] { return held.count(mtx) == 0; });
+    }
+  }
+  void after_unlock(const void* mtx) {
+    std::unique_lock<std::mutex> l(m);
+    held.erase(mtx);
+  }
 
   int add(const std::string& n, bool daemon = false) {
     std::lock_guard<std::mutex> l(m);
@@ -194,6 +225,12 @@ struct Sched {
   }
   void parse(const std::string& s) {  // "s:12=1,30=2" or "d:1,0,2"
     if (s.size() < 2) return;
+    if (s[0] == 'S' || s[0] == 'R' || s[0] == 'D') {
+      lock_points = true;
+      std::string t = s;
+      t[0] = (char)(s[0] - 'A' + 'a');
+      return parse(t);
+    }
     if (s[0] == 'r') {
       rnd = true;
       auto c = s.find(',');
@@ -221,5 +258,6 @@ inline Sched& S() {
   return s;
 }
 inline thread_local int self = -1;
+inline thread_local int hooking = 0;  // > 0 while the interposed lock functions call into the scheduler
 }  // namespace vs
 #endif
